@@ -900,6 +900,11 @@ func genCloneCase(cx *CheckCtx, i int) *Case {
 			return mkLit(fmt.Sprintf("s%d", tokn))
 		case 8:
 			return Tok{Api: pick(r, []string{"Null", "Line", "Empty"})}
+		case 9:
+			// struct tags (a builder that looks at what the statement already ends in could merge them)
+			return Tag{KV: [][2]string{{pick(r, []string{"json", "db", "xml"}), fmt.Sprintf("v%d", tokn)}}}
+		case 10:
+			return Comment{Text: fmt.Sprintf("c%d", tokn)}
 		default:
 			return id(fmt.Sprintf("t%d", tokn))
 		}
